@@ -30,6 +30,7 @@ class RunInfo:
         self.graph = None
         self.keys = None
         self.canon: Canon | None = None
+        self.blocks: dict = {}
 
 
 def graph_of(colls, optimize: bool = False):
@@ -68,8 +69,13 @@ def sim_compute(
     max_crashes: int = 3,
     info: RunInfo | None = None,
     pickle_b: bool = False,
+    block_keys_of=None,
 ):
-    """Compute collections; returns tuple of results (like dask.compute)."""
+    """Compute collections; returns tuple of results (like dask.compute).
+
+    block_keys_of: optional dask array whose individual blocks are requested in
+    addition (backend A only); they are stored in info.blocks {block index: value}.
+    """
     info = info if info is not None else RunInfo()
     log = log if log is not None else EventLog()
 
@@ -87,6 +93,13 @@ def sim_compute(
             res = dlocal.get_sync(g, ck)
             return res
         data_digests = {k: digest(n.value) for k, n in g.items() if isinstance(n, DataNode)}
+        extra = []
+        if block_keys_of is not None and backend == "A":
+            from dask.core import flatten
+
+            for k in flatten(block_keys_of.__dask_keys__()):
+                if keymap.get(k, k) in g:
+                    extra.append(keymap.get(k, k))
         if backend == "A":
             cl = SimCluster(
                 tape,
@@ -100,7 +113,12 @@ def sim_compute(
                 max_crashes=max_crashes,
             )
             try:
-                res = cl.get(g, ck, data_digests)
+                if extra:
+                    both = cl.get(g, [ck, extra], data_digests)
+                    res = both[0]
+                    info.blocks = {k[1:]: v for k, v in zip(extra, both[1])}
+                else:
+                    res = cl.get(g, ck, data_digests)
             finally:
                 info.stats = cl.stats
                 info.order = cl.order
